@@ -231,4 +231,63 @@ theorem gen_default_configs_agree :
          Otel.Gen.C14.logGrpc_DefaultConfig_otherFields) := by
   exact ⟨rfl, rfl, rfl, rfl, rfl⟩
 
+/-! ### newRequest: framing of the request body -/
+
+/-- the effects of the two compression arms (shared by the three clients) -/
+def plainArm : String × List String := ("req,nil", ["ContentLength=len(body)", "body=payload"])
+def gzipPre : List String := ["ContentLength=-1", "Content-Encoding:gzip", "freshBuffer", "gz.Reset(&b)"]
+
+/-- otlptracehttp `newRequest`: NoCompression(0) sets the exact content length and reads the payload itself;
+GzipCompression(1) declares the length unknown, sets the header, resets the pooled writer onto a FRESH buffer and —
+only if writing and closing succeed — reads that buffer; any other value builds a request without a body -/
+theorem gen_trace_new_request_table (e1 e2 e3 : Bool) (c : Int) :
+    Otel.Gen.C14.traceHttpNewRequest e1 e2 e3 c =
+      (if e1 then ("err(NewRequest)", [])
+       else if c = 0 then plainArm
+       else if c = 1 then (if e2 || e3 then ("req,err", gzipPre) else ("req,nil", gzipPre ++ ["body=b.Bytes()"]))
+       else ("req,nil", [])) := by
+  unfold Otel.Gen.C14.traceHttpNewRequest plainArm gzipPre
+  cases e1 <;> cases e2 <;> cases e3 <;> by_cases h0 : c = 0 <;> by_cases h1 : c = 1 <;>
+    simp [h0, h1] <;> (try omega) <;> (repeat' split) <;> (try simp_all) <;> omega
+
+/-- otlpmetrichttp and otlploghttp frame the body the same way -/
+theorem gen_metric_log_new_request_table (e1 e2 : Bool) (c : Int) :
+    (Otel.Gen.C14.metricHttpNewRequest e1 e2 c =
+      (if c = 0 then plainArm
+       else if c = 1 then (if e1 || e2 then ("req,err", gzipPre) else ("req,nil", gzipPre ++ ["body=b.Bytes()"]))
+       else ("req,nil", []))) ∧
+    Otel.Gen.C14.logHttpNewRequest e1 e2 c = Otel.Gen.C14.metricHttpNewRequest e1 e2 c := by
+  unfold Otel.Gen.C14.metricHttpNewRequest Otel.Gen.C14.logHttpNewRequest plainArm gzipPre
+  cases e1 <;> cases e2 <;> by_cases h0 : c = 0 <;> by_cases h1 : c = 1 <;>
+    simp [h0, h1] <;> (try omega) <;> (repeat' split) <;> (try simp_all) <;> omega
+
+/-- the request the model's `newRequest` builds has the Content-Length and Content-Encoding the source sets on the
+successful path of the corresponding arm -/
+theorem gen_new_request_eq_model (gz : Bytes → Bytes) (compress : Bool) (m : Mem) (payload : Bytes) :
+    let eff := (Otel.Gen.C14.traceHttpNewRequest false false false (if compress then 1 else 0)).2
+    (newRequest gz compress m payload).2.contentLength =
+        (if eff.contains "ContentLength=-1" then -1 else (payload.length : Int)) ∧
+    (newRequest gz compress m payload).2.gzipHeader = eff.contains "Content-Encoding:gzip" ∧
+    (compress = true → eff.contains "freshBuffer" = true ∧ eff.contains "body=b.Bytes()" = true) := by
+  cases compress <;> simp [gen_trace_new_request_table, newRequest, plainArm, gzipPre]
+
+/-! ### client constructors: every literal sets the export timeout -/
+
+/-- every `http.Client{…}` literal of the three HTTP client files sets `Timeout`, and every `client{…}` literal of the
+three gRPC `newClient` functions sets `exportTimeout` (a construction branch that forgets the field — seeded
+C14-12 / C20-11 — silently exports without a deadline) -/
+theorem gen_client_literals_set_timeout :
+    (∀ l ∈ Otel.Gen.C14.traceHttpClientLiterals ++ Otel.Gen.C14.metricHttpClientLiterals ++ Otel.Gen.C14.logHttpClientLiterals,
+        (l.map (·.1)).contains "Timeout" = true) ∧
+    (∀ l ∈ Otel.Gen.C14.traceGrpcClientLiterals ++ Otel.Gen.C14.metricGrpcClientLiterals ++ Otel.Gen.C14.logGrpcClientLiterals,
+        (l.map (·.1)).contains "exportTimeout" = true) := by decide
+
+/-- the model side of the same fact: every branch of the modelled constructors carries the configured timeout -/
+theorem gen_model_clients_carry_timeout (b : HttpBuild) (g : GrpcBuild) :
+    (newHTTPClient b).timeout = b.timeout ∧ (newGRPCClient g).exportTimeout = g.timeout := by
+  constructor
+  · unfold newHTTPClient
+    cases b.tls <;> cases b.proxy <;> simp
+  · rfl
+
 end Otel.C14.GenTie
